@@ -177,10 +177,52 @@ var chaosTokens = []string{"%", "%", "%", "%%", "+", "-", "#", " ", "0", "1", "2
 	"v", "s", "d", "q", "x", "X", "t", "b", "c", "o", "O", "U", "e", "E", "f", "F", "g", "G", "p", "T", "w", "z", "!",
 	"a", "lit ", "\n", startS, endS, "×", "é", "世", "\xe2", "\x80", "\xb9", "\xff", "%v", "%s", "%d", "%+v", "%#v", "%x", "%5s", "%-5d", "%.2f", "%*d", "%.*s", "%[2]v", "%[1]*d"}
 
+// genIndexedDirective draws a directive with explicit argument indexes at
+// any of the three places fmt accepts them: before a '*' width, before a
+// '*' precision and before the verb (valid, zero, out of range).
+func (fc *fmtConfig) genIndexedDirective(rt *rapid.T) string {
+	idx := func(label string) string {
+		switch rapid.IntRange(0, 5).Draw(rt, label) {
+		case 0, 1:
+			return ""
+		case 2:
+			return "[" + string(rune('0'+rapid.IntRange(0, 6).Draw(rt, label+"n"))) + "]"
+		default:
+			return "[" + string(rune('1'+rapid.IntRange(0, 3).Draw(rt, label+"n"))) + "]"
+		}
+	}
+	s := "%"
+	if rapid.IntRange(0, 3).Draw(rt, "ixflag") == 0 {
+		f := "+-# 0"[rapid.IntRange(0, 4).Draw(rt, "ixflagc")]
+		if !(fc.noZeroMinus && f == '0') {
+			s += string(f)
+		}
+	}
+	switch rapid.IntRange(0, 3).Draw(rt, "ixw") {
+	case 0:
+		s += idx("ixwi") + "*"
+	case 1:
+		s += string(rune('1' + rapid.IntRange(0, 8).Draw(rt, "ixwd")))
+	}
+	switch rapid.IntRange(0, 3).Draw(rt, "ixp") {
+	case 0:
+		s += "." + idx("ixpi") + "*"
+	case 1:
+		s += "." + string(rune('0'+rapid.IntRange(0, 5).Draw(rt, "ixpd")))
+	}
+	s += idx("ixvi")
+	verbs := "vvsdxfqv"
+	return s + string(verbs[rapid.IntRange(0, len(verbs)-1).Draw(rt, "ixverb")])
+}
+
 func (fc *fmtConfig) genChaoticFormat(rt *rapid.T) []byte {
 	n := rapid.IntRange(0, 10).Draw(rt, "nct")
 	var out []byte
 	for i := 0; i < n; i++ {
+		if rapid.IntRange(0, 4).Draw(rt, "indexed") == 0 {
+			out = append(out, fc.genIndexedDirective(rt)...)
+			continue
+		}
 		tok := chaosTokens[rapid.IntRange(0, len(chaosTokens)-1).Draw(rt, "ct")]
 		if !fc.bytesAlpha && (tok == "\xe2" || tok == "\x80" || tok == "\xb9" || tok == "\xff") {
 			tok = "é"
